@@ -21,10 +21,11 @@
 (***************************************************************************)
 EXTENDS Generator, Json, IOUtils, TLCExt
 Traces == ndJsonDeserialize(IOEnv.CASES)
-VARIABLES tid, l, mst, ret, syms, dead, mok, tcl     \* tcl: the tracker's claim list as last logged
-vars == <<tid, l, mst, ret, syms, dead, mok, tcl>>
+VARIABLES tid, l, mst, ret, syms, dead, mok, tcl,    \* tcl: the tracker's claim list as last logged
+          rst, tainted   \* rst: which slots of the TRACKER stack are retained published terms; tainted: one was consumed
+vars == <<tid, l, mst, ret, syms, dead, mok, tcl, rst, tainted>>
 
-Init == tid = 0 /\ l = 0 /\ mst = InitState("gamma") /\ ret = 0 /\ syms = <<>> /\ dead = FALSE /\ mok = TRUE /\ tcl = <<>>
+Init == tid = 0 /\ l = 0 /\ mst = InitState("gamma") /\ ret = 0 /\ syms = <<>> /\ dead = FALSE /\ mok = TRUE /\ tcl = <<>> /\ rst = <<>> /\ tainted = FALSE
 
 ExpSeq(s) == [k \in 1..Len(s) |-> Expand(s[k])]
 RECURSIVE SymsOf(_)
@@ -40,7 +41,7 @@ ImgE(e, sy) == [k |-> e.k, p |-> ImgT(e.p, sy)]
 Start ==
   /\ tid = 0
   /\ \E t \in 1..Len(Traces) :
-       /\ tid' = t /\ l' = 1 /\ ret' = 0 /\ syms' = <<>> /\ dead' = FALSE /\ mok' = TRUE /\ tcl' = <<>>
+       /\ tid' = t /\ l' = 1 /\ ret' = 0 /\ syms' = <<>> /\ dead' = FALSE /\ mok' = TRUE /\ tcl' = <<>> /\ rst' = <<>> /\ tainted' = FALSE
        /\ mst' = [InitState(Traces[t].phase) EXCEPT
                     !.claims = IF Traces[t].phase = "proof" THEN Reverse(ExpSeq(Traces[t].claims)) ELSE <<>>]
 
@@ -64,8 +65,25 @@ Reason(ms, bs, r) ==
   ELSE IF op \in {"ESubst", "SSubst"} /\ IsP(0) /\ IsP(1) THEN "subst-illformed"
   ELSE IF op = "MetaVar" THEN "metavar-illformed"
   ELSE IF op = "Instantiate" /\ n >= d.ins.n + 1 /\ (\A k \in 1..d.ins.n : IsP(k)) THEN "instantiate-constraint-or-capture"
-  ELSE IF ret > 0 THEN "retained-entry-consumed"
   ELSE "other"
+
+\* how many tracker stack slots a call consumes / whether it pushes a fresh one (PyPublishKeepsTop bookkeeping)
+Pops(e) == CASE e.m \in {"implies", "app", "esubst", "ssubst", "modus_ponens"} -> 2
+             [] e.m \in {"exists", "mu", "exists_generalization", "pop"} -> 1
+             [] e.m \in {"instantiate", "instantiate_pattern"} -> (IF Len(e.bytes) >= 2 THEN e.bytes[2] + 1 ELSE 1)
+             [] OTHER -> 0
+ReadsTop(e) == e.m \in {"save", "publish_axiom", "publish_claim", "publish_proof"}
+Pushes(e) == e.m \notin {"pop", "save", "publish_axiom", "publish_claim", "publish_proof", "into_claim_phase", "into_proof_phase"}
+ConsumesRetained(e, rs) ==
+  LET n == Len(rs)  k == Pops(e) IN
+  \/ \E j \in 1..k : j <= n /\ rs[n + 1 - j]
+  \/ ReadsTop(e) /\ n > 0 /\ rs[n]
+NextRst(e, rs) ==
+  IF IsSw(e.m) THEN <<>>
+  ELSE LET n == Len(rs)  k == IF Pops(e) <= n THEN Pops(e) ELSE n
+           base == SubSeq(rs, 1, n - k) IN
+       IF IsPub(e.m) THEN (IF n > 0 THEN [rs EXCEPT ![n] = TRUE] ELSE rs)
+       ELSE IF Pushes(e) THEN Append(base, FALSE) ELSE base
 
 Event ==
   /\ tid > 0 /\ l <= Len(Traces[tid].events) /\ ~dead
@@ -78,23 +96,27 @@ Event ==
          ms == m0.st
          nm == Len(ms.memory) - Len(mst.memory)
          tc == IF e.cc THEN e.claims ELSE tcl
+         rst2 == IF e.out = "ok" THEN NextRst(e, rst) ELSE rst
+         TopRetained == Len(rst2) > 0 /\ rst2[Len(rst2)]        \* the tracker's top slot is a published term the machine already consumed
          clause ==
            IF e.out # "ok" THEN (IF e.bytes # <<>> THEN "bytes-on-raise" ELSE "")
            ELSE IF ~sx.ok THEN "symtab"
            ELSE IF ~m0.ok THEN "machine-rejects"
            ELSE IF e.len # Len(ms.stack) + ret2 THEN "stack-length"
-           ELSE IF Len(ms.stack) > 0 /\ ~IsPub(e.m) /\ e.top.k # "skip" /\ ImgE(e.top, sx.sy) # ms.stack[Len(ms.stack)] THEN "top"
+           ELSE IF Len(ms.stack) > 0 /\ ~TopRetained /\ e.top.k # "skip" /\ ImgE(e.top, sx.sy) # ms.stack[Len(ms.stack)] THEN "top"
            ELSE IF e.memlen # Len(ms.memory) \/ Len(e.mem) # nm THEN "memory"
            ELSE IF \E k \in 1..nm : ImgE(e.mem[k], sx.sy) # ms.memory[Len(mst.memory) + k] THEN "memory"
            ELSE IF ms.phase = "proof" /\ [k \in 1..Len(tc) |-> ImgT(tc[k], sx.sy)] # Reverse(ms.claims) THEN "claims"
            ELSE ""
-         reason == IF clause = "machine-rejects" THEN Reason(mst, e.bytes, m0)
-                   ELSE IF clause \in {"top", "stack-length", "memory", "claims"} /\ ret > 0 THEN "retained-entry-consumed" ELSE "-"
+         taint2 == tainted \/ (e.out = "ok" /\ ConsumesRetained(e, rst))
+         reason == IF clause = "machine-rejects" /\ ~taint2 THEN Reason(mst, e.bytes, m0)
+                   ELSE IF clause # "" /\ taint2 THEN "retained-entry-consumed" ELSE "-"
      IN /\ IF clause = "" THEN TRUE ELSE PrintT(<<"FAIL", tid, l, clause, reason>>)
         /\ mst' = ms /\ ret' = ret2 /\ syms' = sx.sy
         /\ dead' = (e.out = "ok" /\ ~m0.ok)
         /\ mok' = (mok /\ m0.ok)
         /\ l' = l + 1 /\ tid' = tid /\ tcl' = tc
+        /\ tainted' = taint2 /\ rst' = IF e.out = "ok" THEN NextRst(e, rst) ELSE rst
 
 \* the axioms a module declares, computed from its STRUCTURE (decl = [imports, axioms, raw]): imported modules first, in
 \* import order, recursively; then the module's own axioms (add_axiom skips an axiom equal to an earlier own one unless the
@@ -128,7 +150,7 @@ Finish ==
         /\ IF c3 = "" THEN TRUE ELSE PrintT(<<"FAIL", tid, l, c3, "-">>)
         /\ PrintT(<<"DONE", tid, l - 1>>)
   /\ l' = Len(Traces[tid].events) + 2
-  /\ UNCHANGED <<tid, mst, ret, syms, dead, mok, tcl>>
+  /\ UNCHANGED <<tid, mst, ret, syms, dead, mok, tcl, rst, tainted>>
 
 Next == Start \/ Event \/ Finish
 Spec == Init /\ [][Next]_vars
